@@ -73,7 +73,8 @@ def correspondence(ctx):
             # pre-existing content of the dump folder: stale tmp files and an older result under the same final name
             for n in list(impl0[0].final_files()) + ["blocks.csv.tmp", "unspent.csv.tmp", "balances.csv.tmp", "tx_out.csv.tmp"]:
                 with open(os.path.join(dump, n), "wb") as f:
-                    f.write(b"stale content that must not survive\n" * 3)
+                    # longer than anything this run writes: a tmp file opened without truncation would keep the tail
+                    f.write(b"stale content that must not survive\n" * (3 if n.endswith(".csv") else 60000))
             before = tree_hashes(d)
             kv_before = dumpindex(d)
             ref = canon(cb, impl0[0])
